@@ -6,6 +6,10 @@ memo of per-node seeds keyed without pool_size):
  B  dyadic mode (halfway_tree=True / BrownianTree): two objects, same entropy, *different* histories and fault
     plans, then a common probe set (on / off the tolerance grid, multi-piece, with U and A) -> identical answers
  C  a different entropy gives a different path
+ T  two independent objects used from two threads under a seeded, deterministic interleaving (baton-passing real
+    threads; pre-emption points at every line of torchsde/trampoline code and at every normal draw) -> each thread's
+    answers equal those of a sequential replica. Catches state shared between objects that only bites under a
+    particular interleaving (a module-level generator re-seeded before each draw).
  D  "depends only on the entropy and options": a replica evaluated in a *forked child process* (which never sees the
     decoy) versus the same construction in the parent AFTER a decoy object with the same entropy but other options
     (pool_size, Levy mode) has been built and queried over the same intervals -> identical answers. Catches state
@@ -34,7 +38,7 @@ ASSUMPTIONS = ["torch.Generator/np.random.SeedSequence are deterministic functio
 REAL_VS_STUB = {"real": ["torchsde.BrownianInterval/BrownianTree/ReverseBrownian", "trampoline", "numpy SeedSequence",
                          "torch kernels"],
                 "stub": ["value cache wrapped by FaultyCache (forwarding), one independent plan per replica"]}
-PROBES = ("pairs_compared", "expA", "expB", "expD", "expB_histories_differ", "expB_trees_differ", "probe_offgrid", "probe_with_A",
+PROBES = ("pairs_compared", "expA", "expB", "expD", "expT", "thread_switches", "preemption_points", "expB_histories_differ", "expB_trees_differ", "probe_offgrid", "probe_with_A",
           "probe_with_U", "entropy_differs_checked", "tree_front", "reverse_front", "tiny_cache")
 STATE_MEASURE = "distinct pairs of final interval-tree shapes of the two replicas"
 
@@ -43,7 +47,18 @@ def gen_case(seed, tier, idx):
     st = Streams(seed)
     rc = st.get("config")
     x = rc.random()
-    exp = "B" if x < 0.5 else ("A" if x < 0.9 else "D")
+    exp = "B" if x < 0.5 else ("A" if x < 0.84 else ("D" if x < 0.93 else "T"))
+    if exp == "T":
+        cfg = bm.gen_config(rc, fronts=(("interval", 5), ("tree", 1)), small=True)
+        if cfg["entropy"] is None:
+            cfg["entropy"] = rc.randrange(0, 2 ** 31 - 1)
+        dom = domain(cfg)
+        ro = st.get("ops")
+        ops = bm.gen_ops(ro, cfg, dom, ro.choice([2, 4, 8]), {"uniform": 3, "sweep": 1, "triple": 1, "requery": 1, "dyadic": 1})[:12]
+        ops2 = bm.gen_ops(st.get("ops2"), cfg, dom, ro.choice([2, 4, 8]), {"uniform": 3, "sweep": 1, "triple": 1, "requery": 1})[:12]
+        return {"config": cfg, "exp": "T", "ops": ops, "ops2": ops2, "probes": [],
+                "entropy2": rc.choice([cfg["entropy"], cfg["entropy"], rc.randrange(0, 2 ** 31 - 1)]),
+                "sched_seed": rc.randrange(1 << 30), "rate": rc.choice([0.02, 0.1, 0.3])}
     if exp == "D":
         cfg = bm.gen_config(rc, fronts=(("interval", 5), ("tree", 2)), halfway=(rc.random() < 0.6))
     elif exp == "B":
@@ -100,6 +115,8 @@ def gen_case(seed, tier, idx):
 
 
 def _call(ex, op, idx, faults):
+    if bm.apply_env(op):
+        return {}
     if op["op"] == "point":
         return {"P": ex.point(xf(op["t"]), faults, idx)}
     res = ex.raw(xf(op["ta"]), xf(op["tb"]), op["U"], op["A"], faults, idx)
@@ -193,9 +210,88 @@ def _run_D(case, log, probes):
     return b1, e1
 
 
+def _run_T(case, log, probes):
+    """Two independent objects, two threads, seeded interleaving; reference = the same objects run sequentially."""
+    import os
+    import torch
+    import trampoline
+    import torchsde
+    from .. import seams, threads
+    from ..core import tdig
+    cfg = case["config"]
+    cfgs = [cfg, dict(cfg, entropy=case["entropy2"])]
+    opss = [case["ops"], case["ops2"]]
+
+    def sequential(i):
+        b = bm.build(cfgs[i], Streams(1).get("entropy"), faults=False, monitor=False)
+        ex = bm.BMExec(b, EventLog(False), monitor_budget=None)
+        return [{k: tdig(v) for k, v in _call(ex, op, j, None).items()} for j, op in enumerate(opss[i])]
+
+    ref = [sequential(0), sequential(1)]
+    built = [bm.build(cfgs[i], Streams(1).get("entropy"), faults=False, monitor=False) for i in range(2)]
+    exs = [bm.BMExec(built[i], EventLog(False), monitor_budget=None) for i in range(2)]
+    real = seams._real_randn
+    baton = threads.Baton(2, case["sched_seed"], case["rate"])
+
+    def randn(*a, **k):
+        me = baton.me()
+        if me is not None:
+            baton.yield_point(me, rate=0.5)  # pre-emption point at every normal draw
+        return real(*a, **k)
+
+    def work(i):
+        def f():
+            return [{k: tdig(v) for k, v in _call(exs[i], op, j, None).items()} for j, op in enumerate(opss[i])]
+        return f
+
+    dirs = [os.path.dirname(torchsde.__file__) + os.sep, os.path.dirname(trampoline.__file__) + os.sep]
+    torch.randn = randn
+    try:
+        results = threads.run_interleaved([work(0), work(1)], baton, dirs)
+    finally:
+        torch.randn = real
+    probes["thread_switches"] = baton.switches
+    probes["preemption_points"] = baton.points
+    log.add("T", baton.switches, baton.points)
+    for i, (kind, val) in enumerate(results):
+        if kind == "exc":
+            if isinstance(val, (Violation, bm.CaseTooExpensive)):
+                raise val
+            raise Violation(f"exception:{type(val).__name__}@{bm._where(val)}", {"thread": i, "msg": str(val)[:200]}, i)
+        for j, (a, b) in enumerate(zip(ref[i], val)):
+            probes["pairs_compared"] += 1
+            if a != b:
+                comp = next(k for k in a if a[k] != b.get(k))
+                raise Violation(f"interleaving_changes_{comp}", {"thread": i, "op": opss[i][j], "switches": baton.switches}, j)
+
+
 def run_case(case, keep_log=False):
+    try:
+        return _run_case(case, keep_log)
+    finally:
+        bm.restore_env()
+
+
+def _run_case(case, keep_log=False):
     cfg = case["config"]
     log = EventLog(keep_log)
+    if case["exp"] == "T":
+        probes = {k: 0 for k in PROBES}
+        probes["expT"] = 1
+        violation = None
+        try:
+            _run_T(case, log, probes)
+        except bm.CaseTooExpensive:
+            probes["truncated_designed_bound"] = 1
+        except Violation as v:
+            violation = v.to_json()
+        stats = {"faults": {"thread_switch": probes["thread_switches"]}, "probes": probes,
+                 "counters": {"ops": len(case["ops"]) + len(case["ops2"]), "queries": 2 * (len(case["ops"]) + len(case["ops2"])),
+                              "sde_time": 0.0}, "states": []}
+        out = {"violation": violation, "digest": log.digest(), "stats": stats}
+        if keep_log:
+            out["log"] = log.records
+        return out
     if case["exp"] == "D":
         probes = {k: 0 for k in PROBES}
         probes["expD"] = 1
@@ -303,6 +399,8 @@ def nontrivial(stats):
     p = stats.get("probes", {})
     f = stats.get("faults", {})
     stress = sum(v for k, v in f.items() if k != "unavailable") or p.get("tiny_cache")
+    if p.get("expT"):
+        return bool(p.get("pairs_compared") and p.get("thread_switches", 0) >= 2)
     if not p.get("pairs_compared") or not stress:
         return False
     if p.get("expB") and not p.get("expB_histories_differ"):
